@@ -401,11 +401,101 @@ func cobraRunE(p *core.Prog, rel, use string) map[*ssa.Function]bool {
 	return out
 }
 
+// typeRoles: unexported types the rules name, each with a structural description that singles it out
+// among the named struct types of its package.
+type typeRole struct {
+	rel, name string
+	role      func(p *core.Prog, n *types.Named, st *types.Struct) bool
+}
+
+func structHasField(st *types.Struct, pred func(t types.Type) bool) bool {
+	for i := 0; i < st.NumFields(); i++ {
+		if pred(st.Field(i).Type()) {
+			return true
+		}
+	}
+	return false
+}
+
+var typeRoleTable = []typeRole{
+	{".", "tarReadData", func(p *core.Prog, n *types.Named, st *types.Struct) bool {
+		return structHasField(st, func(t types.Type) bool { return core.IsNamed(t, "archive/tar", "Reader") })
+	}},
+	{".", "tarWriteData", func(p *core.Prog, n *types.Named, st *types.Struct) bool {
+		return structHasField(st, func(t types.Type) bool { return core.IsNamed(t, "archive/tar", "Writer") })
+	}},
+	{".", "imageOpt", func(p *core.Prog, n *types.Named, st *types.Struct) bool {
+		// the options of a copy: carries the callback and the referrer configurations
+		return structHasField(st, func(t types.Type) bool {
+			sl, ok := t.Underlying().(*types.Slice)
+			return ok && core.IsModNamed(sl.Elem(), "scheme", "ReferrerConfig")
+		}) && structHasField(st, func(t types.Type) bool { return core.IsNamed(t, "sync", "Mutex") })
+	}},
+	{"internal/reghttp", "clientHost", func(p *core.Prog, n *types.Named, st *types.Struct) bool {
+		return structHasField(st, func(t types.Type) bool { return core.IsModNamed(t, "config", "Host") }) &&
+			structHasField(st, func(t types.Type) bool { return core.IsModNamed(t, "internal/pqueue", "Queue") })
+	}},
+	{"mod", "dagManifest", func(p *core.Prog, n *types.Named, st *types.Struct) bool {
+		self := structHasField(st, func(t types.Type) bool {
+			sl, ok := t.Underlying().(*types.Slice)
+			return ok && core.NamedOf(sl.Elem()) == n
+		})
+		return self && structHasField(st, func(t types.Type) bool { return core.IsModNamed(t, "types/manifest", "Manifest") })
+	}},
+	{"types/platform", "compare", func(p *core.Prog, n *types.Named, st *types.Struct) bool {
+		nc := p.Func("types/platform", "NewCompare")
+		return nc != nil && nc.Signature.Results().Len() == 1 && core.NamedOf(nc.Signature.Results().At(0).Type()) == n
+	}},
+	{"cmd/regsync", "rootOpts", func(p *core.Prog, n *types.Named, st *types.Struct) bool {
+		return structHasField(st, func(t types.Type) bool { return core.IsModNamed(t, ".", "RegClient") }) &&
+			structHasField(st, func(t types.Type) bool { return core.IsModNamed(t, "cmd/regsync", "Config") })
+	}},
+	{"cmd/regbot", "rootOpts", func(p *core.Prog, n *types.Named, st *types.Struct) bool {
+		return structHasField(st, func(t types.Type) bool { return core.IsModNamed(t, ".", "RegClient") }) &&
+			structHasField(st, func(t types.Type) bool { return core.IsModNamed(t, "cmd/regbot", "Config") })
+	}},
+}
+
+// installTypeRoles fills core.TypeAlias for the types of the table that no longer exist by name.
+func installTypeRoles(p *core.Prog) {
+	for k := range core.TypeAlias {
+		delete(core.TypeAlias, k)
+	}
+	for _, tr := range typeRoleTable {
+		pkg := p.Pkg(tr.rel)
+		if pkg == nil || pkg.Types.Scope().Lookup(tr.name) != nil {
+			continue
+		}
+		var found []*types.Named
+		for _, nm := range pkg.Types.Scope().Names() {
+			tn, ok := pkg.Types.Scope().Lookup(nm).(*types.TypeName)
+			if !ok || tn.IsAlias() {
+				continue
+			}
+			n, ok := tn.Type().(*types.Named)
+			if !ok {
+				continue
+			}
+			st, ok := n.Underlying().(*types.Struct)
+			if !ok {
+				continue
+			}
+			if tr.role(p, n, st) {
+				found = append(found, n)
+			}
+		}
+		if len(found) == 1 {
+			core.TypeAlias[pkg.Types.Path()+"."+found[0].Obj().Name()] = tr.name
+		}
+	}
+}
+
 // installRoles makes p resolve renamed anchors by role and records their canonical names.
 func installRoles(p *core.Prog) {
 	if roleProg == p {
 		return
 	}
+	installTypeRoles(p)
 	roleProg, roleAlias = p, map[*ssa.Function]string{}
 	resolving := map[string]bool{}
 	cache := map[string]*ssa.Function{}
@@ -429,7 +519,7 @@ func installRoles(p *core.Prog) {
 					continue
 				}
 				rn := recvNamed(f)
-				if (typ == "") != (rn == nil) || (rn != nil && rn.Obj().Name() != typ) {
+				if (typ == "") != (rn == nil) || (rn != nil && core.TypeCanon(rn) != typ) {
 					continue
 				}
 				// a function that another anchor already owns by name keeps that identity
